@@ -14,7 +14,8 @@ pub struct Cx<'a> {
     pub world: &'a Arc<World>,
     pub side: usize,
     pub seed: u64,
-    /// 0 = no context, 1 = reference-counted context (the simulated library), 2 = plain Clone context
+    /// 0 = no context, 1 = reference-counted context (the simulated library), 2 = plain Clone context,
+    /// 3 = the same reference-counted context in type-erased form (CArc<c_void>)
     pub ctxsel: usize,
     pub arc_ctx: Option<CArc<CtxPayload>>,
     /// referents of by-reference objects on the erased side; reclaimed by the executor at the end
@@ -51,8 +52,13 @@ macro_rules! mk_any {
                 let c = $cx.arc_ctx.clone().expect("no arc context");
                 Box::new($wrap::<_, $k>::new(simcore::alloc::track(|| $make!((inst, c) as $tr))))
             }
-            _ => {
+            2 => {
                 let c = $crate::world::PlainCtx::new($cx.world);
+                Box::new($wrap::<_, $k>::new(simcore::alloc::track(|| $make!((inst, c) as $tr))))
+            }
+            _ => {
+                // the type-erased form of the reference-counted context (as in examples/plugin-api)
+                let c: cglue::arc::CArc<cglue::trait_group::c_void> = cglue::trait_group::Opaquable::into_opaque($cx.arc_ctx.clone().expect("no arc context"));
                 Box::new($wrap::<_, $k>::new(simcore::alloc::track(|| $make!((inst, c) as $tr))))
             }
         };
@@ -126,7 +132,7 @@ pub fn create_single(family: usize, cont: usize, cx: &Cx) -> Option<Created> {
         };
         return Some(Created { obj, ctxsel: cx.ctxsel, borrowed });
     }
-    let in_lib = cx.ctxsel == 1;
+    let in_lib = cx.ctxsel == 1 || cx.ctxsel == 3;
     let core = Core::new(cx.world, ERASED, cx.seed, in_lib);
     let imp = Solo::new(core);
     macro_rules! er {
@@ -157,7 +163,7 @@ macro_rules! mk_group {
     ($grp:ident, $k:ident, $ty:ident, $cont:expr, $cx:expr, [$($c:tt),*]) => {{
         let cx: &$crate::factory::Cx = $cx;
         let cont: usize = $cont;
-        let in_lib = cx.side == $crate::world::ERASED && cx.ctxsel == 1;
+        let in_lib = cx.side == $crate::world::ERASED && (cx.ctxsel == 1 || cx.ctxsel == 3);
         let core = $crate::world::Core::new(cx.world, cx.side, cx.seed, in_lib);
         let imp = <$ty>::new(core);
         let borrowed = cont == 1 || cont == 2;
